@@ -7,7 +7,7 @@ parameters includes them under its own id (rule names SUB-*)."""
 from __future__ import annotations
 import ast
 from typing import List
-from ..model import Model, own_nodes, norm_stmt, AnalysisError, enclosing_stmt
+from ..model import Model, own_nodes, norm_stmt, AnalysisError, AnchorError, enclosing_stmt
 from ..report import RuleResult
 from ..flow import function_defs, origins
 
@@ -139,14 +139,14 @@ def no_escape_of_current_params(model: Model, A: RuleResult):
     so = cls.methods.get("set_objparams")
     if so is None:
         raise AnalysisError("SUB-A: PureFunction.set_objparams vanished")
-    records = set()
-    for c in own_nodes(so.node):
-        if isinstance(c, ast.Call) and ast.unparse(c.func).split(".")[-1] == "_check_identical_objs":
-            for a in c.args:
-                if isinstance(a, ast.Attribute) and isinstance(a.value, ast.Name) and a.value.id == so.params()[0]:
-                    records.add(a.attr)
+    from ..props.c09 import identity_predicate
+    try:
+        _f, _n, rec, _c = identity_predicate(model)
+        records = {rec}
+    except AnchorError:
+        records = set()
     if not records:
-        raise AnalysisError("SUB-A: the record of the installed parameters (second operand of _check_identical_objs) was not found")
+        raise AnalysisError("SUB-A: the record of the installed parameters (the list the new parameters are compared with) was not found")
     fresh = ("list", "tuple", "copy.copy", "copy")
     n = 0
     for c in [cls] + [k for k in model.all_classes() if k is not cls and cls in k.mro()]:
